@@ -77,6 +77,20 @@ var bookExternal = map[string]string{
 	"bitMask":   "M256", // the default build's `bitMask` = bitMask256 (mask256.go), Generated/Words.lean
 }
 
+// package-level integer functions rendered as the model's function of the same meaning (the tie of their
+// bodies is another translator's or the correspondence check's business): `capPow2` is bit arithmetic on
+// uint32, the model's `capPow2` the least power of two ≥ its argument
+var bookExtFuncs = map[string]string{
+	"capPow2": "capPow2",
+}
+
+// methods whose body is outside the subset (reflect, unsafe) but whose effect on the bookkeeping fields is
+// one assignment: `t.adjustCapacity(c)` re-allocates the columns and sets `t.cap = c` (the row contents
+// are the model's `Table.adjustCapacity`, compared by the correspondence check)
+var bookFieldSetters = map[bookFnKey]string{
+	{"table", "adjustCapacity"}: "cap",
+}
+
 // zero values of external types without Lean defaults
 var bookExtZero = map[string]string{
 	"bitMask64": "(⟨0#64⟩ : M64)",
@@ -678,6 +692,17 @@ func (c *bctx) call(x *ast.CallExpr) (string, *gty) {
 		case c.b.intTypes[f.Name] && len(x.Args) == 1: // conversion
 			s, _ := c.expr(x.Args[0])
 			return s, tyInt
+		case (f.Name == "max" || f.Name == "min") && len(x.Args) == 2: // builtin
+			a, _ := c.expr(x.Args[0])
+			b2, _ := c.expr(x.Args[1])
+			return "(Nat." + f.Name + " (" + a + ") (" + b2 + "))", tyInt
+		case bookExtFuncs[f.Name] != "":
+			var args []string
+			for _, a := range x.Args {
+				s, _ := c.expr(a)
+				args = append(args, "("+s+")")
+			}
+			return "(" + bookExtFuncs[f.Name] + " " + strings.Join(args, " ") + ")", tyInt
 		default:
 			// package-level function
 			info := c.b.translate(bookFnKey{"", f.Name})
@@ -965,6 +990,9 @@ func (c *bctx) bindCall(name string, x *ast.CallExpr, out *strings.Builder, ind 
 	if _, isExt := bookExtMethods[key]; isExt {
 		return false
 	}
+	if _, isSet := bookFieldSetters[key]; isSet {
+		return false
+	}
 	if fd, _ := c.b.findDecl(key); fd == nil {
 		return false
 	}
@@ -1063,6 +1091,15 @@ func (c *bctx) callStmt(x *ast.CallExpr, out *strings.Builder, ind string, k bco
 			rs, _ := c.expr(sel.X)
 			c.setPath(c.resolve(sel.X), c.extApp(em, rs, x.Args), out, ind)
 		}
+		return true, ""
+	}
+	if fld, ok := bookFieldSetters[bookFnKey{bt.name, sel.Sel.Name}]; ok && len(x.Args) == 1 {
+		if _, _, ok := c.b.field(bt.name, fld); !ok {
+			c.bad(x, "field of a modelled setter")
+			return true, ""
+		}
+		v, _ := c.expr(x.Args[0])
+		c.setPath(&ast.SelectorExpr{X: c.resolve(sel.X), Sel: ast.NewIdent(fld)}, v, out, ind)
 		return true, ""
 	}
 	info := c.b.translate(bookFnKey{bt.name, sel.Sel.Name})
@@ -1782,6 +1819,15 @@ var bookFragments = map[bookFnKey]bookFragment{
 	{"observerManager", "AddObserver"}:    {"m.totalCount++", "aggregates"},
 }
 
+var leanKeywords = map[string]bool{"by": true, "at": true, "do": true, "fun": true, "end": true, "from": true, "have": true,
+	"show": true, "then": true, "in": true, "let": true, "match": true, "open": true, "with": true, "where": true,
+	"theorem": true, "def": true, "instance": true, "structure": true, "namespace": true, "section": true, "variable": true,
+	"example": true, "axiom": true, "deriving": true, "mutual": true, "export": true, "private": true, "protected": true,
+	"partial": true, "macro": true, "syntax": true, "notation": true, "local": true, "using": true,
+	"this": true, "Type": true, "Prop": true, "Sort": true, "universe": true, "calc": true, "suffices": true, "obtain": true,
+	"exists": true, "forall": true, "extends": true, "class": true, "inductive": true, "abbrev": true, "opaque": true,
+	"attribute": true, "termination_by": true, "decreasing_by": true, "nomatch": true, "nofun": true, "set_option": true}
+
 func (b *book) translate(key bookFnKey) *bookFnInfo {
 	if info, ok := b.fns[key]; ok {
 		return info
@@ -1797,6 +1843,13 @@ func (b *book) translate(key bookFnKey) *bookFnInfo {
 	}
 	b.stack[key] = true
 	defer delete(b.stack, key)
+	// Go identifiers that are Lean keywords get a trailing underscore
+	ast.Inspect(fd, func(n ast.Node) bool {
+		if id, ok := n.(*ast.Ident); ok && leanKeywords[id.Name] {
+			id.Name += "_"
+		}
+		return true
+	})
 
 	info := &bookFnInfo{recvTy: key.recv}
 	if key.recv != "" {
@@ -2025,6 +2078,8 @@ var bookGroups = []bookGroup{
 		{"lock", "IsLocked"}, {"lock", "Reset"}}, "import Ark.Generated.Words"},
 	{"BookObservers", "events.go: the per-event aggregates (union masks, wildcard flags) that RemoveObserver recomputes — the tail of the function after the observer list was edited", []bookFnKey{
 		{"observerManager", "RemoveObserver"}, {"observerManager", "AddObserver"}}, "import Ark.Generated.Words"},
+	{"BookTableCaps", "table.go: the capacity decisions of Extend / Shrink / CanShrink (adjustCapacity modelled as `cap := c`)", []bookFnKey{
+		{"table", "Extend"}, {"table", "Shrink"}, {"table", "CanShrink"}}, "import Ark.Model.Table"},
 }
 
 func genBook(p *pkgFiles, files map[string]string) {
@@ -2032,15 +2087,32 @@ func genBook(p *pkgFiles, files map[string]string) {
 	owner := map[bookFnKey]string{} // function -> generated file that defines it
 	emittedStructs := map[string]bool{}
 	var prevFiles []string
-	for _, g := range bookGroups {
-		var out strings.Builder
+	// phase 1: translate everything (the generated structures list the fields ALL translated functions use)
+	groupNotes := map[string]string{}
+	groupOf := map[bookFnKey]int{}
+	for gi, g := range bookGroups {
 		var notes strings.Builder
+		before := map[bookFnKey]bool{}
+		for k := range b.fns {
+			before[k] = true
+		}
 		for _, key := range g.fns {
 			key := key
 			fragment(&notes, "book:"+key.recv+"."+key.name, func(o *strings.Builder) {
 				b.translate(key)
 			})
 		}
+		for k := range b.fns {
+			if !before[k] {
+				groupOf[k] = gi
+			}
+		}
+		groupNotes[g.file] = notes.String()
+	}
+	// phase 2: one file per group
+	for gi, g := range bookGroups {
+		var out strings.Builder
+		notes := groupNotes[g.file]
 		// the functions this file defines: everything translated so far that no earlier file owns
 		var defs []*bookFnInfo
 		var keys []bookFnKey
@@ -2049,7 +2121,7 @@ func genBook(p *pkgFiles, files map[string]string) {
 		}
 		sort.Slice(keys, func(i, j int) bool { return b.fns[keys[i]].order < b.fns[keys[j]].order })
 		for _, k := range keys {
-			if _, done := owner[k]; done || !b.fns[k].ok || b.fns[k].inline != "" {
+			if _, done := owner[k]; done || !b.fns[k].ok || b.fns[k].inline != "" || groupOf[k] != gi {
 				continue
 			}
 			owner[k] = g.file
@@ -2064,7 +2136,7 @@ func genBook(p *pkgFiles, files map[string]string) {
 		}
 		out.WriteString(genHeader("T1 (bookkeeping level): "+g.doc+", translated statement by statement; regenerated on every run.", imports))
 		out.WriteString("namespace Book\n\n")
-		out.WriteString(notes.String())
+		out.WriteString(notes)
 		// structures referenced by the signatures of this file's functions (and, transitively, by their fields)
 		var emit func(name string)
 		emit = func(name string) {
